@@ -20,7 +20,7 @@ CHECKS = {
  "C06": ("runtime monitoring: naive loop reference models of the PyTorch definitions under the verdict table + exact stride-bounds sanitizer on every as_strided view + crash containment",
          "Exploration: nn forward ops/layers/losses over the geometry grid (int/tuple/mixed forms, 'same'/'valid', stride None, empty outputs that must raise), position-coded inputs for unfold, all-negative inputs for max-pool padding, both dtypes.",
          "Trusts harness/ref/nnref.py (explicit loops, written from the PyTorch documentation).", "DESIGN.md §4 C06"),
- "C09": ("runtime monitoring: stable closed-form float64 value and gradient references (validated against 50-digit mpmath each run) on magnitude sweeps and wide-spread logits, finiteness monitor",
+ "C09": ("runtime monitoring: stable closed-form float64 value and gradient references (validated against 50-digit mpmath each run) on magnitude sweeps and wide-spread logits, finiteness monitor; every fourth case runs under NumPy's own error settings after legal overflowing calls with NumPy's process-wide error state compared before / after; the result tensor is re-read after backward",
          "Exploration: the seven stability-critical ops, both forms and dtypes, on inputs up to |x|=1e4 including thresholds +-88/89/710 and rows whose probabilities underflow; values and gradients must be finite and within single precision of the exact result.",
          "Trusts the closed forms in props/c09_stability.py (cross-checked against mpmath in every run).", "DESIGN.md §4 C09"),
  "C18": ("runtime monitoring: exhaustive small-scope workload + index-arithmetic reference model on id-tagged samples",
@@ -41,7 +41,7 @@ CHECKS.update({
  "C10": ("runtime monitoring: direct dtype/shape contracts on every op form in both dtypes, float32-vs-float64 forward-error comparison, float32 gradients compared with the float64 gradients of the same function, grad shape/dtype monitor walking the whole graph after each backward",
          "Exploration: both op catalogues x dtypes x scalar operands x broadcasting x 0-d results x upstream-gradient dtype, incl. layers with default float32 parameters fed float64 inputs.",
          "Trusts NumPy dtype semantics and the forward-error bound.", "DESIGN.md §4 C10"),
- "C11": ("runtime monitoring: byte snapshots of operands / targets / caller's gradient / bystanders and tensor-level snapshots (array held, dtype) around forward, backward, follow-up events, repeats and later calls on other values; kernel argument-mutation sanitizer naming the kernel; digest equality of repeats",
+ "C11": ("runtime monitoring: byte snapshots of operands / targets / caller's gradient / bystanders and tensor-level snapshots (array held, dtype) around forward, backward, follow-up events, repeats and later calls on other values; kernel argument-mutation sanitizer naming the kernel; digest equality of repeats; results re-read after backward, seeds of another shape, functional batch norm with half-specified statistics, operands on the boundary of the domain",
          "Exploration: both catalogues with operands stored as plain, transposed, strided, reshaped and shared-base views, random DAG programs with bystander graphs, and the documented mutators.",
          "Aliasing without a write is not reported; bit-identical repeats are asserted within one process with BLAS pinned to one thread.", "DESIGN.md §4 C11"),
  "C12": ("runtime monitoring: random module-tree construction and action programs compared after every step with a plain-Python registry-tree model; tagging modules observe Sequential order",
@@ -59,10 +59,10 @@ CHECKS.update({
  "C16": ("runtime monitoring: cross-variant equality (bit-exact im2col, 1e-12 col2im), adjoint identity on random x/y, multiplicity by counting loops, loop reference for the layout, exact stride-bounds sanitizer, crash containment",
          "Exploration: geometry grid enumerated per axis (thorough ~88k geometry cases), both layouts, pad values, int/tuple/mixed forms, empty geometries.",
          "Trusts harness/ref/nnref.unfold/fold.", "DESIGN.md §4 C16"),
- "C17": ("runtime monitoring: backward-trace exactly-once/order monitor on chains up to 2e5 ops at the default recursion limit, Python-call counts (sys.setprofile) at N and 2N, library source lines executed by the sweep (sys.settrace) on ladders of reused intermediates, CPU time at 1e5/4e5 ops in the thorough tier only, live-tensor registry sampled at quiescent points of untracked loops, weak references",
+ "C17": ("runtime monitoring: backward-trace exactly-once/order monitor on chains up to 2e5 ops at the default recursion limit, Python-call counts (sys.setprofile) at N and 2N, library source lines executed by the sweep (sys.settrace) on ladders of reused intermediates, CPU time at 1e5/4e5 ops in the thorough tier only, live-tensor registry sampled at quiescent points of untracked loops, weak references; rotating op catalogue in untracked loops (mixed and every op alone) judged on live tensors and traced memory (tracemalloc); library source lines executed by a second sweep with all gradients retained; CPU-time ratio probe reproduced three times",
          "Exploration (bounded progress): stated sizes only - chains 1e3..2e5, wide 2000-term graphs, depth-60 ladders, untracked loops up to 1e5 updates.",
          "Linearity decided on counted calls, never on wall-clock; memory decided on live Tensor objects.", "DESIGN.md §4 C17"),
- "C19": ("runtime monitoring: SHA-256 digests of every produced array across >= 6 fresh processes (PYTHONHASHSEED 0/1/4242/random x allocation-layout shifts) and 2-3 in-process repeats; RNG tap on generator constructors called from library code",
+ "C19": ("runtime monitoring: SHA-256 digests of every produced array across >= 6 fresh processes (PYTHONHASHSEED 0/1/4242/random x allocation-layout shifts) and 2-3 in-process repeats; RNG tap on generator constructors called from library code; one graph differentiated four times inside each run (bit-identical gradients per call)",
          "Exploration: programs over all random-consuming APIs, 3-10 training steps with each optimizer, and unseeded DAG programs with 40-term fan-in.",
          "Same machine, BLAS pinned to one thread.", "DESIGN.md §4 C19"),
  "C20": ("runtime monitoring: trainer trace (optimizer.step/zero_grad, train/eval, forward, loss, backward with per-event training flags, behaviourally probed gradient mode and parameter/buffer digests) checked offline against the grammar of the statement; history and accuracies recomputed from recorded batches",
